@@ -8,7 +8,8 @@ package transmit
 //@ guarded_by transmit.DirectTransmission.batchMutex: eventBatches
 // (Stop touches the table without the lock on purpose: it first closes `stop` and waits for the dispatcher,
 // and the caller's contract is that nothing is enqueued after Stop - that protocol is not a lock obligation.)
-//@ lockdiscipline transmit.DirectTransmission batchMutex props C35 skip: Start, Stop
+// registerMetrics is the part of Start that fills metricKeys, before any goroutine of the transmission exists.
+//@ lockdiscipline transmit.DirectTransmission batchMutex props C35 skip: Start, Stop, registerMetrics
 //@ guarded_by transmit.eventBatch.mutex: events, startTime
 //@ lockdiscipline transmit.eventBatch mutex props C35
 
